@@ -25,6 +25,8 @@ GRAPHS = [
     # name, n, edges, number of symbolic weights (None = unit weights, empty valarray)
     ("triangle", 3, [(0, 1), (1, 2), (0, 2)], 3),
     ("path+isolated", 4, [(0, 1), (1, 2)], 2),
+    ("two single-edge components + isolated node", 5, [(0, 1), (3, 2)], 2),
+    ("no edges", 3, [], 0),
     ("parallel-edges", 2, [(0, 1), (0, 1)], 2),
     ("parallel-reversed", 2, [(0, 1), (1, 0)], 2),
     ("parallel-interleaved", 3, [(0, 1), (2, 1), (0, 1)], 3),
@@ -216,13 +218,15 @@ def rule_path_lengths(chk, prog):
     r = chk.rule("IDEAL-DISTANCES", "ConstrainedFDLayout::computePathLengths, symbolic: D[i][j] = idealEdgeLength * shortest path length, "
                  "unreachable pairs keep DBL_MAX and get G = 0, adjacent pairs G = 1, other reachable pairs G = 2, non-positive lengths are "
                  "replaced by 1 before use; D and G start uninitialised (as new[] leaves them) and every entry of G, the diagonal included (0), has a "
-                 "defined value afterwards", floor=3)
+                 "defined value afterwards; D's diagonal is 0", floor=5)
     fn = prog.fn("cola::ConstrainedFDLayout::computePathLengths")
     L = Poly.var("L")
     cases = [
         ("triangle", 3, [(0, 1), (1, 2), (0, 2)], [Poly.var("a"), Poly.var("b"), Poly.var("c")], None),
         ("path+isolated", 4, [(0, 1), (1, 2)], [Poly.var("a"), Poly.var("b")], None),
         ("non-positive lengths", 3, [(0, 1), (1, 2)], [Fraction(0), Fraction(-3)], [Fraction(1), Fraction(1)]),
+        ("no edges at all", 3, [], [], None),
+        ("two single-edge components + isolated node", 5, [(0, 1), (3, 2)], [Poly.var("a"), Poly.var("b")], None),
     ]
     for gname, n, edges, lens, effective in cases:
         names = sorted({v for x in lens if isinstance(x, Poly) for v in x.vars()})
@@ -274,6 +278,9 @@ def rule_path_lengths(chk, prog):
                             if g is UNINIT or g != 0:
                                 prob = prob or "G[%d][%d] is %s: the diagonal of the neighbour matrix (handed out by readLinearG) must be 0" % (
                                     i, j, "left uninitialised" if g is UNINIT else g)
+                            if got is UNINIT or to_poly(got).eval_exact(env) != 0:
+                                prob = prob or "D[%d][%d] is %s: the distance from a node to itself must be 0" % (
+                                    i, j, "left uninitialised" if got is UNINIT else to_poly(got).eval_exact(env))
                             continue
                         gotv = to_poly(got).eval_exact(env) if got is not UNINIT else None
                         if ref[i][j] is None:
@@ -292,7 +299,95 @@ def rule_path_lengths(chk, prog):
         (r.bad if prob else r.ok)("computePathLengths on %s" % gname, fn.where(), prob or "%d feasible leaves" % nf)
 
 
+# functions of ConstrainedFDLayout that may do more than read single entries of D / G, and what they may do with them
+_MATRIX_WRITERS = {
+    "cola::ConstrainedFDLayout::ConstrainedFDLayout": {"allocate"},      # D = new double*[n]; D[i] = new double[n] (rows handed to nobody)
+    "cola::ConstrainedFDLayout::~ConstrainedFDLayout": {"release"},
+    "cola::ConstrainedFDLayout::computePathLengths": {"store", "alias", "escape"},   # johnsons(n, D, ...), double& d = D[i][j], G[u][v] = 1, addon
+}
+
+
+def rule_matrix_writers(chk, prog):
+    """The matrices the layout works with are exactly what computePathLengths computed."""
+    from ..cfg import CFG
+    from ..astq import strip
+    r = chk.rule("MATRIX-WRITERS", "the ideal-distance matrix D and the neighbour matrix G of ConstrainedFDLayout: every mention of the two members in "
+                 "the five libraries is classified (read of one entry / allocation / release / store / reference alias / pointer handed to a "
+                 "callee); only computePathLengths stores entries, binds references to them or hands rows to callees (the shortest-path "
+                 "routine, the topology add-on), the constructors only allocate, the destructor only releases; every constructor reaches "
+                 "computePathLengths on every path to its end -- no second producer of distances beside the one IDEAL-DISTANCES interprets", floor=12)
+    targets = ("cola::ConstrainedFDLayout::D", "cola::ConstrainedFDLayout::G")
+    n_mentions = 0
+    for fn in prog.all_functions():
+        for n in fn.nodes():
+            if n.get("k") != "MemberExpr" or n.get("ref") not in targets:
+                continue
+            n_mentions += 1
+            depth, cur, kind = 0, n, None
+            for a in fn.ancestors(n):
+                k = a.get("k")
+                if k == "ParenExpr":
+                    cur = a
+                    continue
+                if k == "ImplicitCastExpr":
+                    if a.get("ck") == "LValueToRValue" and depth == 2:
+                        kind = "read"
+                        break
+                    cur = a
+                    continue
+                if k == "ArraySubscriptExpr" and strip(a["ch"][0]) is strip(cur):
+                    depth += 1
+                    cur = a
+                    continue
+                if k in ("BinaryOperator", "CompoundAssignOperator") and a.get("op", "").endswith("=") and a.get("op") not in ("==", "!=", "<=", ">=") \
+                        and strip(a["ch"][0]) is strip(cur):
+                    rhs_new = strip(a["ch"][1]) is not None and strip(a["ch"][1]).get("k") == "CXXNewExpr"
+                    kind = "allocate" if depth < 2 and rhs_new and a.get("op") == "=" else "store"
+                    break
+                if k == "UnaryOperator" and a.get("op") in ("++", "--"):
+                    kind = "store"
+                    break
+                if k == "CXXDeleteExpr":
+                    kind = "release"
+                    break
+                if k == "VarDecl":
+                    kind = "alias" if "&" in a.get("t", "") or "*" in a.get("t", "") else "read"
+                    break
+                if "callee" in a or k in ("CallExpr", "CXXMemberCallExpr", "CXXConstructExpr", "ReturnStmt", "UnaryOperator"):
+                    kind = "escape"
+                    break
+                if k in ("BinaryOperator",) and depth == 2:
+                    kind = "read"
+                    break
+                kind = "escape"
+                break
+            kind = kind or "escape"
+            r.count()
+            allowed = _MATRIX_WRITERS.get(fn.q, set()) | {"read"}
+            if kind in allowed:
+                r.ok("%s in %s" % (n["ref"].split("::")[-1], fn.q), fn.loc(n), kind)
+            else:
+                r.bad("%s in %s" % (n["ref"].split("::")[-1], fn.q), fn.loc(n),
+                      "%s outside computePathLengths (%s): the layout may work with entries that the all-pairs routine did not produce" % (
+                          {"store": "an entry of the matrix is stored", "alias": "a reference / pointer to entries of the matrix is taken",
+                           "escape": "the matrix or one of its rows is handed on", "allocate": "storage for the matrix is allocated",
+                           "release": "storage of the matrix is released"}[kind], kind))
+    ctors = prog.fns("cola::ConstrainedFDLayout::ConstrainedFDLayout")
+    if not ctors:
+        raise AnalysisBroken("no ConstrainedFDLayout constructor found")
+    for c in ctors:
+        if not c.body:
+            continue
+        g = CFG(c)
+        cs = [x for x in c.nodes() if x.get("cname") == "cola::ConstrainedFDLayout::computePathLengths"]
+        r.count()
+        esc = g.exit_reachable_avoiding([x["id"] for x in cs]) if cs else "no call"
+        (r.ok if cs and esc is None else r.bad)("constructor reaches computePathLengths", c.where(), "" if cs and esc is None else
+                                                "a path through the constructor ends without computePathLengths (%s): D and G are whatever that path left" % (esc,))
+
+
 def run(chk):
     prog = chk.load()
     chk.guard(rule_all_pairs, chk, prog)
     chk.guard(rule_path_lengths, chk, prog)
+    chk.guard(rule_matrix_writers, chk, prog)
